@@ -1,5 +1,414 @@
-"""translator targets (registered on import)"""
-from translator.translate import *  # noqa: F401,F403
-from translator.translate import target, load, find_func, header, Sym, TranslationError, REL, int_expr  # noqa: F401
-import ast  # noqa: F401
+"""Tie A targets: scalar formulas (normalisation constants, exponents, per-mode functions)."""
+from __future__ import annotations
 
+import ast
+
+from translator.translate import target, load, find_func, header, Sym, TranslationError
+
+
+def lean_num(e, env):
+    """Python arithmetic over scalars -> Lean term over `[Num R]`; `env` maps source names/expressions to Lean variables"""
+    s = ast.unparse(e)
+    if s in env:
+        return env[s]
+    if isinstance(e, ast.Constant) and isinstance(e.value, bool):
+        raise TranslationError("boolean in arithmetic")
+    if isinstance(e, ast.Constant) and isinstance(e.value, int):
+        return f"(Num.ofNat {e.value})" if e.value >= 0 else f"(-(Num.ofNat {-e.value}))"
+    if isinstance(e, ast.Constant) and isinstance(e.value, float):
+        txt = repr(e.value)
+        if "e" in txt or "." not in txt:
+            raise TranslationError("float literal form " + txt)
+        a, b = txt.split(".")
+        m = int(a + b)
+        return f"(Num.dec {m} {len(b)})"
+    if isinstance(e, ast.UnaryOp) and isinstance(e.op, ast.USub):
+        return f"(-{lean_num(e.operand, env)})"
+    if isinstance(e, ast.BinOp):
+        if isinstance(e.op, ast.Pow):
+            if isinstance(e.right, ast.Constant) and e.right.value == 2:
+                x = lean_num(e.left, env)
+                return f"({x} * {x})"
+            if isinstance(e.right, ast.Constant) and e.right.value == 0.5:
+                return f"(Num.sqrt {lean_num(e.left, env)})"
+            raise TranslationError("unsupported power " + s)
+        op = {ast.Add: "+", ast.Sub: "-", ast.Mult: "*", ast.Div: "/"}.get(type(e.op))
+        if op is None:
+            raise TranslationError("unsupported operator in " + s)
+        return f"({lean_num(e.left, env)} {op} {lean_num(e.right, env)})"
+    if isinstance(e, ast.Call):
+        f = ast.unparse(e.func)
+        if f in ("np.sqrt",) and len(e.args) == 1:
+            return f"(Num.sqrt {lean_num(e.args[0], env)})"
+        if f in ("np.log",) and len(e.args) == 1:
+            return f"(Num.log {lean_num(e.args[0], env)})"
+        if f in ("abs", "np.abs") and len(e.args) == 1:
+            return f"(Num.abs {lean_num(e.args[0], env)})"
+    raise TranslationError("untranslatable scalar expression: " + s[:100])
+
+
+def assigned(fn, name):
+    vals = [n.value for n in ast.walk(fn) if isinstance(n, ast.Assign) and len(n.targets) == 1 and ast.unparse(n.targets[0]) == name]
+    if not vals:
+        raise TranslationError(f"no assignment to {name}")
+    return vals
+
+
+def kw_of(call, name):
+    for k in call.keywords:
+        if k.arg == name:
+            return k.value
+    return None
+
+
+# ------------------------------------------------------------------------------------------------- EOF
+@target("eofFormulas", "Formulas", ["C01", "C03", "C04"])
+def _eof():
+    path, qual = "single/eof.py", "EOF._fit_algorithm"
+    src, tree = load(path)
+    fn = find_func(tree, qual)
+    sym = Sym(fn)
+    ev = sym.resolve(ast.Name("exp_var"), stop={"singular_values", "n_samples"})
+    ns = ast.unparse(sym.defs.get("n_samples", ast.Name("?")))
+    if ns != "X.coords[self.sample_name].size":
+        raise TranslationError("n_samples is not the number of samples of the decomposed matrix: " + ns)
+    sc = ast.unparse(sym.defs.get("scores", ast.Name("?")))
+    if sc not in ("decomposer.U_ * decomposer.s_", "decomposer.s_ * decomposer.U_"):
+        raise TranslationError("scores are not U_ * s_: " + sc)
+    comp = ast.unparse(sym.defs.get("components", ast.Name("?")))
+    sval = ast.unparse(sym.defs.get("singular_values", ast.Name("?")))
+    if comp != "decomposer.V_" or sval != "decomposer.s_":
+        raise TranslationError(f"components/singular values are not V_/s_: {comp}, {sval}")
+    out = [f"/-- {header(path, qual, src, fn)}: explained variance of one mode from its singular value `s` and the sample count `n` -/",
+           "def eofExpVar {R : Type} [Num R] (s n : R) : R :=", "  " + lean_num(ev, {"singular_values": "s", "n_samples": "n"})]
+    # ratio
+    fn2 = find_func(tree, "EOF.explained_variance_ratio")
+    sym2 = Sym(fn2)
+    r = sym2.defs.get("exp_var_ratio")
+    if r is None:
+        raise TranslationError("exp_var_ratio not found")
+    out += [f"/-- {header(path, 'EOF.explained_variance_ratio', src, fn2)} -/",
+            "def eofExpVarRatio {R : Type} [Num R] (expvar total : R) : R :=",
+            "  " + lean_num(r, {"self.data['explained_variance']": "expvar", "self.data['total_variance']": "total"})]
+    # total variance: ddof
+    path3, qual3 = "utils/xarray_utils.py", "total_variance"
+    src3, tree3 = load(path3)
+    fn3 = find_func(tree3, qual3)
+    ret = [s for s in fn3.body if isinstance(s, ast.Return)][0].value
+    txt = ast.unparse(ret)
+    if not (txt.startswith("data.var(dim, ddof=") and txt.endswith(").sum()")):
+        raise TranslationError("total_variance is not data.var(dim, ddof=k).sum(): " + txt)
+    ddof = kw_of(ret.func.value, "ddof")
+    out += [f"/-- {header(path3, qual3, src3, fn3)}: delta degrees of freedom of the per-feature variance that is summed -/",
+            f"def totalVarianceDdof : Nat := {int(ddof.value)}"]
+    return "\n".join(out) + "\n"
+
+
+# ------------------------------------------------------------------------------------------------- threshold block fractions
+@target("thresholdFractions", "Formulas", ["C15"])
+def _thr_frac():
+    out = []
+    for path, qual, suf in (("linalg/decomposer.py", "Decomposer.fit", "Decomposer"), ("linalg/_numpy/_svd.py", "_SVD.fit_transform", "SVD")):
+        src, tree = load(path)
+        fn = find_func(tree, qual)
+        sym = Sym(fn)
+        N = sym.defs.get("N")
+        if N is None or ast.unparse(N) != "X.shape[0] - 1":
+            raise TranslationError("N is not X.shape[0] - 1 in " + qual)
+        ev = sym.resolve(ast.Name("explained_variance"), stop={"s", "N", "total_variance"})
+        tv = ast.unparse(sym.defs.get("total_variance"))
+        if "ddof=1" not in tv:
+            raise TranslationError("total variance of the threshold block does not use ddof=1: " + tv)
+        out += [f"/-- {header(path, qual, src, fn)}: fraction of variance of one mode; `n` = number of samples -/",
+                f"def thresholdFraction{suf} {{R : Type}} [Num R] (s n total : R) : R :=",
+                "  " + lean_num(ev, {"s": "s", "N": "(n - Num.ofNat 1)", "total_variance": "total"})]
+    return "\n".join(out) + "\n"
+
+
+# ------------------------------------------------------------------------------------------------- whitening
+@target("whitenerFormulas", "Formulas", ["C16", "C09", "C03"])
+def _whitener():
+    path, qual = "preprocessing/whitener.py", "Whitener._compute_whitener_transform_numpy"
+    src, tree = load(path)
+    fn = find_func(tree, qual)
+    sym = Sym(fn)
+    nc = ast.unparse(sym.defs.get("nc", ast.Name("?")))
+    if nc != "X.shape[0]":
+        raise TranslationError("nc is not the number of samples X.shape[0]: " + nc)
+    C = ast.unparse(sym.defs.get("C", ast.Name("?")))
+    if C != "X.conj().T @ X / nc":
+        raise TranslationError("covariance is not X^H X / nc: " + C)
+    power = sym.defs.get("power")
+    T = ast.unparse(sym.defs.get("T", ast.Name("?")))
+    if not T.startswith("_fractional_matrix_power(C, power"):
+        raise TranslationError("T is not the fractional power of C: " + T)
+    out = [f"/-- {header(path, qual, src, fn)}: covariance normaliser (as a function of the sample count) and exponent of the whitening matrix -/",
+           "def whitenerCovDenominator {R : Type} [Num R] (n : R) : R := n",
+           "def whitenerPower {R : Type} [Num R] (alpha : R) : R :=", "  " + lean_num(power, {"self.alpha": "alpha"})]
+    # inverse: inv with pinv fallback
+    tr = [s for s in fn.body if isinstance(s, ast.Try)]
+    if len(tr) != 1 or "np.linalg.inv(T)" not in ast.unparse(tr[0].body[0]) or "np.linalg.pinv(T)" not in ast.unparse(tr[0].handlers[0].body[0]):
+        raise TranslationError("Tinv is not inv(T) with pinv fallback")
+    # fractional power: cut-off and exponent
+    path2, qual2 = "linalg/_numpy/_utils.py", "_fractional_matrix_power"
+    src2, tree2 = load(path2)
+    fn2 = find_func(tree2, qual2)
+    sym2 = Sym(fn2)
+    cut = sym2.defs.get("is_above_zero")
+    if not (isinstance(cut, ast.Compare) and len(cut.ops) == 1 and isinstance(cut.ops[0], ast.Gt) and ast.unparse(cut.left) == "s"):
+        raise TranslationError("cut-off is not `s > threshold`: " + ast.unparse(cut))
+    thr = cut.comparators[0]
+    thr_s = ast.unparse(thr)
+    if thr_s == "np.finfo(s.dtype).eps * s.max()":
+        rel = "true"
+    elif thr_s == "np.finfo(s.dtype).eps":
+        rel = "false"
+    else:
+        raise TranslationError("unexpected cut-off threshold " + thr_s)
+    cs = ast.unparse(sym2.defs.get("C_scaled", ast.Name("?")))
+    if cs != "V @ np.diag(s ** power) @ V.conj().T":
+        raise TranslationError("fractional power is not V diag(s^p) V^H: " + cs)
+    out += [f"/-- {header(path2, qual2, src2, fn2)}: singular values at or below eps (times the largest one, if relative) are dropped -/",
+            f"def fracPowerCutoffIsRelative : Bool := {rel}"]
+    # component maps: conj on T / Tinv
+    cls = find_func(tree, "Whitener")
+    facts = {}
+    for m, var in (("transform_components", "T"), ("inverse_transform_components", "Tinv")):
+        f = find_func(tree, "Whitener." + m)
+        vs = [ast.unparse(n.value) for n in ast.walk(f) if isinstance(n, ast.Assign) and ast.unparse(n.targets[0]) == "VS"]
+        if len(vs) < 1:
+            raise TranslationError("VS not assigned in " + m)
+        facts[m] = vs[0]
+    exp = {"transform_components": "self.T.conj().T", "inverse_transform_components": "self.Tinv.conj().T"}
+    for m in exp:
+        ok = facts[m] == exp[m]
+        out.append(f"/-- `Whitener.{m}` applies the conjugate transpose ({exp[m]}): source has `{facts[m]}` -/")
+        out.append(f"def whitener{''.join(w.capitalize() for w in m.split('_'))}UsesConjTranspose : Bool := {'true' if ok else 'false'}")
+    # data maps
+    f = find_func(tree, "Whitener.inverse_transform_data")
+    ret = [ast.unparse(n.value) for n in ast.walk(f) if isinstance(n, ast.Return)]
+    ok = any(r == "xr.dot(X, self.Tinv, dims='mode')" for r in ret)
+    out.append(f"/-- `Whitener.inverse_transform_data` multiplies with Tinv (no conjugate): source returns {ret} -/")
+    out.append(f"def whitenerInverseDataUsesTinv : Bool := {'true' if ok else 'false'}")
+    return "\n".join(out) + "\n"
+
+
+# ------------------------------------------------------------------------------------------------- cross covariance
+@target("crossCovFormulas", "Formulas", ["C09"])
+def _crosscov():
+    path = "cross/cpcca.py"
+    src, tree = load(path)
+    fn = find_func(tree, "CPCCA._compute_cross_covariance_numpy")
+    ret = [n.value for n in ast.walk(fn) if isinstance(n, ast.Return)][0]
+    if ast.unparse(ret) != "X.conj().T @ Y / (n_samples_x - 1)":
+        raise TranslationError("cross-covariance is not X^H Y / (n - 1): " + ast.unparse(ret))
+    fn2 = find_func(tree, "CPCCA._normalize_data")
+    r2 = [n.value for n in ast.walk(fn2) if isinstance(n, ast.Return)][0]
+    t2 = ast.unparse(r2)
+    if not t2.startswith("X / X.std(dim"):
+        raise TranslationError("_normalize_data is not X / X.std(dim, ...): " + t2)
+    dd = kw_of(r2.right, "ddof")
+    ddof = int(dd.value) if dd is not None else 0
+    return (f"/-- {header(path, 'CPCCA._compute_cross_covariance_numpy', src, fn)} -/\n"
+            "def crossCovDenominator {R : Type} [Num R] (n : R) : R := (n - Num.ofNat 1)\n"
+            f"/-- {header(path, 'CPCCA._normalize_data', src, fn2)}: ddof of the standard deviation used for correlations -/\n"
+            f"def correlationStdDdof : Nat := {ddof}\n")
+
+
+# ------------------------------------------------------------------------------------------------- rotator
+@target("rotatorFormulas", "Formulas", ["C11", "C04"])
+def _rot():
+    path, qual = "single/eof_rotator.py", "EOFRotator._fit_algorithm"
+    src, tree = load(path)
+    fn = find_func(tree, qual)
+    sym = Sym(fn)
+    ld = ast.unparse(sym.defs.get("loadings", ast.Name("?")))
+    if ld != "components * np.sqrt(expvar)":
+        raise TranslationError("loadings are not components * sqrt(expvar): " + ld)
+    norms = [v for v in assigned(fn, "norms")][0]
+    out = [f"/-- {header(path, qual, src, fn)}: pseudo-norm of a rotated mode from its explained variance and the sample count -/",
+           "def rotatorNorm {R : Type} [Num R] (expvar n : R) : R :=", "  " + lean_num(norms, {"expvar": "expvar", "n_samples": "n"}),
+           "def rotatorLoadingScale {R : Type} [Num R] (expvar : R) : R := (Num.sqrt expvar)"]
+    ev2 = [ast.unparse(v) for v in assigned(fn, "expvar")]
+    if "(abs(rot_loadings) ** 2).sum(self.feature_name)" not in ev2:
+        raise TranslationError("rotated explained variance is not the squared column norm of the rotated loadings: " + str(ev2))
+    rc = [ast.unparse(v) for v in assigned(fn, "rot_components")]
+    if "rot_loadings / np.sqrt(expvar)" not in rc:
+        raise TranslationError("rotated components are not rot_loadings / sqrt(expvar): " + str(rc))
+    # inverse transpose guard
+    for p_, q_, name in ((path, "EOFRotator._compute_rot_mat_inv_trans", "Single"), ("cross/cpcca_rotator.py", "CPCCARotator._compute_rot_mat_inv_trans", "Cross")):
+        s_, t_ = load(p_)
+        g = find_func(t_, q_)
+        ifs = [n for n in g.body if isinstance(n, ast.If)]
+        if len(ifs) != 1:
+            raise TranslationError("guard of the inverse transpose not found in " + q_)
+        test = ifs[0].test
+        if not (isinstance(test, ast.Compare) and ast.unparse(test.left) == "self._params['power']" and len(test.ops) == 1):
+            raise TranslationError("unexpected guard " + ast.unparse(test))
+        rel = {ast.Gt: ">", ast.GtE: "≥", ast.Lt: "<", ast.LtE: "≤", ast.Eq: "==", ast.NotEq: "!="}[type(test.ops[0])]
+        body = " ".join(ast.unparse(x) for x in ifs[0].body)
+        uses_inv = "np.linalg.inv" in body
+        conj = ".conj().transpose(*input_dims)" in body
+        transposed_out = "output_core_dims=[input_dims[::-1]]" in body
+        out += [f"/-- {header(p_, q_, s_, g)}: for which `power` the scores are rotated with the inverse conjugate transpose -/",
+                f"def rotator{name}UsesInverse (power : Int) : Bool := decide (power {rel} {ast.unparse(test.comparators[0])})" if rel not in ("==", "!=") else
+                f"def rotator{name}UsesInverse (power : Int) : Bool := (power {rel} {ast.unparse(test.comparators[0])})",
+                f"def rotator{name}InverseIsConjTranspose : Bool := {'true' if (uses_inv and conj and transposed_out) else 'false'}"]
+    return "\n".join(out) + "\n"
+
+
+# ------------------------------------------------------------------------------------------------- POP
+@target("popFormulas", "Formulas", ["C18"])
+def _pop():
+    path, qual = "single/pop.py", "POP._np_solve_pop_system"
+    src, tree = load(path)
+    fn = find_func(tree, qual)
+    sym = Sym(fn)
+    A = ast.unparse(sym.defs.get("A", ast.Name("?")))
+    if A != "X[1:].conj().T @ X[:-1] @ np.linalg.inv(X[:-1].conj().T @ X[:-1])":
+        raise TranslationError("feedback matrix is not X1^H X0 (X0^H X0)^-1: " + A)
+    eig = ast.unparse([n.value for n in ast.walk(fn) if isinstance(n, ast.Assign) and "lbda" in ast.unparse(n.targets[0])][0])
+    if eig != "np.linalg.eig(A)":
+        raise TranslationError("eigen-decomposition is not np.linalg.eig(A): " + eig)
+    tau = sym.defs.get("tau")
+    T = sym.defs.get("T")
+    out = [f"/-- {header(path, qual, src, fn)}: damping time from |lambda| and period from arg(lambda) -/",
+           "def popDampingTime {R : Type} [Num R] (absLambda : R) : R :=", "  " + lean_num(tau, {"abs(lbda)": "absLambda"}),
+           "def popPeriod {R : Type} [Num R] (twoPi argLambda : R) : R :=", "  " + lean_num(T, {"2 * np.pi": "twoPi", "np.angle(lbda)": "argLambda"})]
+    # ordering: norms = var(Z)**0.5, descending argsort
+    fn2 = find_func(tree, "POP._fit_algorithm")
+    sym2 = Sym(fn2)
+    vz = ast.unparse(sym2.defs.get("var_Z", ast.Name("?")))
+    nz = ast.unparse(sym2.defs.get("norms", ast.Name("?")))
+    idx = ast.unparse(sym2.defs.get("idx_modes_sorted", ast.Name("?")))
+    ok = vz == "Z.var(sample_name)" and nz == "var_Z ** 0.5" and idx == "argsort_dask(norms, 'mode')[::-1]"
+    out += [f"/-- {header(path, 'POP._fit_algorithm', src, fn2)}: modes are ordered by descending standard deviation of the coefficients "
+            f"(var_Z = `{vz}`, norms = `{nz}`, order = `{idx}`) -/",
+            f"def popOrderedByDescendingStd : Bool := {'true' if ok else 'false'}"]
+    resets = any(isinstance(n, ast.Assign) and ast.unparse(n.targets[0]) == "self.sorted" and ast.unparse(n.value) == "False" for n in fn2.body)
+    out += ["/-- `POP._fit_algorithm` clears the `sorted` flag (refit) -/", f"def popFitResetsSorted : Bool := {'true' if resets else 'false'}"]
+    return "\n".join(out) + "\n"
+
+
+# ------------------------------------------------------------------------------------------------- OPA
+@target("opaFormulas", "Formulas", ["C19"])
+def _opa():
+    path = "single/opa.py"
+    src, tree = load(path)
+    fn = find_func(tree, "OPA._Ctau")
+    ret = [n.value for n in ast.walk(fn) if isinstance(n, ast.Return)][0]
+    sym = Sym(fn)
+    ns = ast.unparse(sym.defs.get("n_samples", ast.Name("?")))
+    xt = ast.unparse(sym.defs.get("Xtau", ast.Name("?")))
+    if ns != "Xtau[sample_name].size" or xt != "X.shift({sample_name: -tau}).dropna(sample_name)":
+        raise TranslationError(f"lagged sample count is not that of the shifted, NaN-dropped series: {ns}; {xt}")
+    if ast.unparse(ret) != "xr.dot(X0, Xtau, dims=[sample_name]) / (n_samples - 1)":
+        raise TranslationError("lag covariance is not dot(X0, Xtau)/(n_samples - 1): " + ast.unparse(ret))
+    fn2 = find_func(tree, "OPA._fit_algorithm")
+    sym2 = Sym(fn2)
+    M0 = ast.unparse(sym2.defs.get("M", ast.Name("?")))
+    if M0 != "0.5 * C0":
+        raise TranslationError("lag sum does not start with 0.5 * C0: " + M0)
+    loops = [n for n in fn2.body if isinstance(n, ast.For)]
+    if len(loops) != 1 or ast.unparse(loops[0].iter) != "range(1, tau_max + 1)":
+        raise TranslationError("lag loop is not range(1, tau_max + 1)")
+    ifs = [n for n in loops[0].body if isinstance(n, ast.If)]
+    if len(ifs) != 1:
+        raise TranslationError("end-point weight test not found")
+    t = ifs[0].test
+    if not (isinstance(t, ast.Compare) and len(t.ops) == 1):
+        raise TranslationError("unexpected end-point test")
+    if isinstance(t.ops[0], (ast.Is, ast.IsNot)):
+        raise TranslationError("end-point test compares integers by identity (`is`): " + ast.unparse(t))
+    if not (isinstance(t.ops[0], ast.Eq) and {ast.unparse(t.left), ast.unparse(t.comparators[0])} == {"tau", "tau_max"}):
+        raise TranslationError("end-point test is not tau == tau_max: " + ast.unparse(t))
+    w = ast.unparse(ifs[0].body[0])
+    if w != "Ctau = 0.5 * Ctau":
+        raise TranslationError("end-point weight is not 0.5: " + w)
+    acc = [ast.unparse(n) for n in loops[0].body if isinstance(n, ast.Assign) and ast.unparse(n.targets[0]) == "M"]
+    if acc != ["M = M + Ctau"]:
+        raise TranslationError("accumulation is not M = M + Ctau: " + str(acc))
+    sm = ast.unparse(sym2.defs.get("M_summed", ast.Name("?")))
+    tg = [ast.unparse(v) for v in assigned(fn2, "target")]
+    if sm != "M + MT" or not tg or not tg[0].startswith("0.5 * xr.dot(C0_sqrt_inv, M_summed"):
+        raise TranslationError("symmetrisation is not 0.5 (M + M^T)")
+    # eigen-solver: symmetric, descending
+    txt = ast.unparse(fn2)
+    sym_solver = "np.linalg.eigh(A)" in txt and "np.argsort(eigvals)[::-1][:n_modes]" in txt
+    return (f"/-- {header(path, 'OPA._fit_algorithm', src, fn2)}: twice the trapezoidal weight of lag `tau` in the lag sum "
+            "(lag 0 enters with 0.5 C0) -/\n"
+            "def opaLagWeightTimesTwo (tau tauMax : Nat) : Nat := if tau == 0 then 1 else if tau == tauMax then 1 else 2\n"
+            f"/-- {header(path, 'OPA._Ctau', src, fn)}: lag covariances are normalised with (number of overlapping samples - 1) -/\n"
+            "def opaLagDenominator (n tau : Nat) : Nat := (n - tau) - 1\n"
+            "/-- the eigen-problem is solved with a symmetric solver returning signed eigenvalues in descending order -/\n"
+            f"def opaUsesSymmetricDescendingSolver : Bool := {'true' if sym_solver else 'false'}\n")
+
+
+# ------------------------------------------------------------------------------------------------- scaler
+@target("scalerChain", "Formulas", ["C03", "C08"])
+def _scaler():
+    path = "preprocessing/scaler.py"
+    src, tree = load(path)
+
+    def chain(qual):
+        fn = find_func(tree, qual)
+        ops = []
+        for st in fn.body:
+            guard = "always"
+            body = [st]
+            if isinstance(st, ast.If):
+                g = ast.unparse(st.test)
+                if not g.startswith("params['with_"):
+                    continue
+                guard = g[len("params['"):-2]
+                body = st.body
+            for b in body:
+                if isinstance(b, ast.Assign) and ast.unparse(b.targets[0]) == "X" and isinstance(b.value, ast.BinOp) and ast.unparse(b.value.left) == "X":
+                    op = {ast.Sub: "sub", ast.Add: "add", ast.Mult: "mul", ast.Div: "div"}[type(b.value.op)]
+                    operand = ast.unparse(b.value.right)
+                    if not operand.startswith("self."):
+                        raise TranslationError("operand is not a fitted parameter: " + operand)
+                    ops.append((op, operand[5:], guard))
+        return fn, ops
+
+    f1, fwd = chain("Scaler.transform")
+    f2, inv = chain("Scaler.inverse_transform_data")
+    fit = find_func(tree, "Scaler.fit")
+    sym = Sym(fit)
+    std = [ast.unparse(n.value) for n in ast.walk(fit) if isinstance(n, (ast.Assign, ast.AnnAssign)) and ast.unparse(n.target if isinstance(n, ast.AnnAssign) else n.targets[0]) == "self.std_"]
+    mean = [ast.unparse(n.value) for n in ast.walk(fit) if isinstance(n, (ast.Assign, ast.AnnAssign)) and ast.unparse(n.target if isinstance(n, ast.AnnAssign) else n.targets[0]) == "self.mean_"]
+    if mean != ["X.mean(self.sample_dims)"]:
+        raise TranslationError("mean_ is not X.mean(sample_dims): " + str(mean))
+    if std != ["X.std(self.sample_dims).clip(min=np.finfo(np.float32).eps)"]:
+        raise TranslationError("std_ is not X.std(sample_dims) clipped at float32 eps: " + str(std))
+
+    def lst(ops):
+        return "[" + ", ".join(f'("{o}", "{p}", "{g}")' for o, p, g in ops) + "]"
+
+    return (f"/-- {header(path, 'Scaler.transform', src, f1)}: ordered (operation, fitted parameter, guard) -/\n"
+            f"def scalerForward : List (String × String × String) := {lst(fwd)}\n"
+            f"/-- {header(path, 'Scaler.inverse_transform_data', src, f2)} -/\n"
+            f"def scalerInverse : List (String × String × String) := {lst(inv)}\n"
+            f"/-- {header(path, 'Scaler.fit', src, fit)}: std_ = X.std(sample_dims) (ddof 0) clipped from below at float32 eps, stored clipped -/\n"
+            "def scalerStdDdof : Nat := 0\n"
+            "def scalerStdClipIsStored : Bool := true\n")
+
+
+# ------------------------------------------------------------------------------------------------- ExtendedEOF
+@target("eeofFormulas", "Formulas", ["C10", "C01"])
+def _eeof():
+    path, qual = "single/eeof.py", "ExtendedEOF._fit_algorithm"
+    src, tree = load(path)
+    fn = find_func(tree, qual)
+    sym = Sym(fn)
+    cut = ast.unparse(sym.defs.get("n_samples_cut", ast.Name("?")))
+    kept = ast.unparse(sym.defs.get("n_samples_kept", ast.Name("?")))
+    shift = ast.unparse(sym.defs.get("shift", ast.Name("?")))
+    if cut != "(embedding - 1) * tau" or kept != "X.coords[self.sample_name].size - n_samples_cut" or shift != "np.arange(embedding) * tau":
+        raise TranslationError(f"unexpected embedding arithmetic: cut={cut}; kept={kept}; shift={shift}")
+    sl = [ast.unparse(n.value) for n in ast.walk(fn) if isinstance(n, ast.Assign) and ast.unparse(n.targets[0]) == "X_extended" and ".isel(" in ast.unparse(n.value)]
+    if sl != ["X_extended.isel({self.sample_name: slice(None, n_samples_kept)})"]:
+        raise TranslationError("embedded samples are not the first n_samples_kept: " + str(sl))
+    return (f"/-- {header(path, qual, src, fn)}: number of samples of the delay-embedded matrix and the shift of copy `i` -/\n"
+            "def eeofSamplesKept (n embedding tau : Nat) : Nat := n - (embedding - 1) * tau\n"
+            "def eeofShift (i tau : Nat) : Nat := i * tau\n")
